@@ -3,8 +3,8 @@
 //verif:replace math/rand.New = c18RandNew
 //verif:replace math/rand.NewSource = c18RandSource
 //verif:replace (*math/rand.Rand).Intn = c18Intn
-//verif:replace regexp.Compile = c18Compile
-//verif:replace (*regexp.Regexp).MatchString = c18Match
+//verif:replace@C18b regexp.Compile = c18Compile
+//verif:replace@C18b (*regexp.Regexp).MatchString = c18Match
 
 package discovery
 
